@@ -9,6 +9,7 @@ mod smtp;
 mod pool;
 mod mime;
 mod transports;
+mod dkim;
 mod oracles;
 
 pub fn hex(b: &[u8]) -> String {
